@@ -320,6 +320,56 @@ func genRedactCase(r *rng.R) rcaseJSON {
 	return rcaseJSON{"redact", fn, v1, v2}
 }
 
+// ---------------------------------------------------------------- 1b. parse, then redact
+
+type pcaseJSON2 struct {
+	Kind string `json:"kind"`
+	K    int    `json:"k"` // 1 ParseUserinfo + RedactUserinfo, 3 ParseHostPortUser + RedactHostPortUser
+	A1   string `json:"arg1"`
+	A2   string `json:"arg2"`
+}
+
+func realParseRedact(k int, arg string) string {
+	if k == 1 {
+		ui, err := forwarder.ParseUserinfo(arg)
+		if err != nil {
+			return "None"
+		}
+		return "(Some " + coqfmt.Str(bind.RedactUserinfo(ui)) + ")"
+	}
+	h, err := forwarder.ParseHostPortUser(arg)
+	if err != nil {
+		return "None"
+	}
+	return "(Some " + coqfmt.Str(forwarder.RedactHostPortUser(h)) + ")"
+}
+
+func runParseCase(c pcaseJSON2) string {
+	return fmt.Sprintf("{| pc_kind := %d; pc_arg1 := %s; pc_arg2 := %s; pc_out1 := %s; pc_out2 := %s |}",
+		c.K, coqfmt.Str(c.A1), coqfmt.Str(c.A2), realParseRedact(c.K, c.A1), realParseRedact(c.K, c.A2))
+}
+
+func genParseCase(r *rng.R) pcaseJSON2 {
+	n := 1 + r.Intn(14)
+	s1 := genSecret(r, n, "", ":@%")
+	s2 := twin(r, s1, "")
+	user := r.Pick([]string{"user", "svc@corp", "a", "u-1", "Admin", "x@y@z", "p user"})
+	switch r.Intn(10) {
+	case 0:
+		user = "" // refused: empty user name
+	case 1:
+		user = s1 + "@corp"
+	}
+	if r.Chance(1, 2) {
+		return pcaseJSON2{"parse", 1, user + ":" + s1, user + ":" + s2}
+	}
+	hp := r.Pick([]string{"example.com:80", "*:*", "h:0", "10.0.0.8:443", "*:8080", "a-b.test:*", "origin.test:65535"})
+	if r.Chance(1, 12) {
+		hp = r.Pick([]string{"nocolon", "", ":80", "h:"}) // refused by one side or both
+	}
+	return pcaseJSON2{"parse", 3, user + ":" + s1 + "@" + hp, user + ":" + s2 + "@" + hp}
+}
+
 // ---------------------------------------------------------------- 2. DescribeFlags on the real run command
 
 type fcaseJSON struct {
@@ -475,6 +525,7 @@ func main() {
 	var rcs []rcaseJSON
 	var fcs []fcaseJSON
 	var ecs []ecaseJSON
+	var prs []pcaseJSON2
 	var pcs []pcaseJSON
 
 	if *replay != "" {
@@ -491,6 +542,10 @@ func main() {
 			var c rcaseJSON
 			json.Unmarshal(data, &c)
 			rcs = append(rcs, c)
+		case "parse":
+			var c pcaseJSON2
+			json.Unmarshal(data, &c)
+			prs = append(prs, c)
 		case "describe":
 			var c fcaseJSON
 			json.Unmarshal(data, &c)
@@ -527,6 +582,12 @@ func main() {
 		for i := 0; i < nf; i++ {
 			fcs = append(fcs, genDescribeCase(r))
 		}
+		prs = append(prs, pcaseJSON2{"parse", 3, "svc@corp:svc@proxy.example.com:3128", "svc@corp:tvc@proxy.example.com:3128"},
+			pcaseJSON2{"parse", 3, "bob@example.com:bob@*:*", "bob@example.com:rob@*:*"}, pcaseJSON2{"parse", 1, "u:", "u:x"},
+			pcaseJSON2{"parse", 1, ":p", ":q"}, pcaseJSON2{"parse", 3, "u:p@q@h:1", "u:r@s@h:1"}, pcaseJSON2{"parse", 1, "nopass", "nopass"})
+		for i := 0; i < nr/2; i++ {
+			prs = append(prs, genParseCase(r))
+		}
 		ecs = binaryPlan(r, thorough)
 		pcs = inprocessPlan(r, thorough)
 	}
@@ -541,6 +602,16 @@ func main() {
 	m.Counts["redact"] = len(rc)
 	m.Shards = append(m.Shards, writeShards(*out, "rcases", "rcase", "rcase_model_ok", "rcase_prop_ok", rc)...)
 	writeJSONL(*out, "rcases.jsonl", rj)
+
+	var pc2 []string
+	var pj2 []any
+	for _, c := range prs {
+		pc2 = append(pc2, runParseCase(c))
+		pj2 = append(pj2, c)
+	}
+	m.Counts["parse"] = len(pc2)
+	m.Shards = append(m.Shards, writeShards(*out, "pcases", "pcase", "pcase_model_ok", "pcase_prop_ok", pc2)...)
+	writeJSONL(*out, "pcases.jsonl", pj2)
 
 	var fc []string
 	var fj []any
